@@ -35,7 +35,7 @@ class Model:
     def outcomes(self, w):
         if not w.last:
             return {"derive"}
-        return {"exec:" + w.last["ret"][0]}
+        return {"exec:" + ":".join(map(str, w.last["ret"][:2] if w.last["ret"][0] == "raise" else w.last["ret"][:1]))}
 
     def key(self, w):
         return w.key() + f"|log{len(w.log)}"
@@ -74,7 +74,8 @@ class Model:
             if idx != rootds.idx:
                 return [{"kind": "wrong-dataset-executed", "msg": f"{op}: ran on ds{idx}, root is ds{rootds.idx}"}]
             n = L["n0"] + 1
-            want_ret = ("raise", ("boom", idx, n)) if rootds.fail else ("ret", ("tok", idx, n))
+            want_ret = ("raise", streams.EXC[n % len(streams.EXC)].__name__, ("boom", idx, n)) if rootds.fail \
+                else ("ret", ("tok", idx, n))
         if got_title != L["title"]:
             return [{"kind": "wrong-title", "msg": f"{got_title!r} != {L['title']!r}"}]
         got = streams.dump_without_empty_metadata(got_ast, w.ds_index, strip=False)
